@@ -125,11 +125,15 @@ def schedule_rules(R, lib):
                dict(name='cap', sync=5, initial=3, timeout=300, steps=(400, 3100, 4700), start=40000),
                dict(name='wrap32', sync=8, initial=2, timeout=1000, steps=(500, 2000), start=(1 << 32) - 3000),
                dict(name='long', sync=70, initial=70, timeout=2000, steps=(1000, 30000, 50000), start=70000),
+               # periods in the upper half of 16 bits: the doubled retry period (40000 -> 80000, capped at 43200) does not fit 16 bits
+               # before it is capped
+               dict(name='wide', sync=43200, initial=40000, timeout=1000, steps=(1000, 15000000, 44000000), start=1000, coarse=True),
                # the reference clock answers with the epoch itself (0 is a reading like any other) and with a time before it
                dict(name='zero', sync=8, initial=1, timeout=1000, steps=(600, 9000), start=5000, value=lambda t_: 0),
                dict(name='negative', sync=8, initial=1, timeout=1000, steps=(600, 9000), start=5000, value=lambda t_: -86400 + t_ // 1000)]
     kinds = ('distinct', 'same', 'no-backup', 'absent')
     depth = {'short': 9 if thorough else 7, 'backoff': 11 if thorough else 9, 'cap': 9 if thorough else 7, 'wrap32': 8 if thorough else 6, 'long': 8 if thorough else 6,
+             'wide': 8 if thorough else 7,
              'zero': 7 if thorough else 5, 'negative': 7 if thorough else 5}
     counts = {k: 0 for k in ('S1', 'S2', 'S3', 'S4', 'S5', 'S6', 'S7')}
     first = {}
@@ -178,7 +182,9 @@ def schedule_rules(R, lib):
                 best[key] = d
                 if fresh_state:
                     # S5: the reading the clock would give now, loop() having been the only caller so far
-                    if spec['model'] is not None:
+                    # (steps beyond the 65.5 s polling bound of the clock - the 'coarse' configuration, there for the request protocol - say
+                    # nothing about the reading)
+                    if spec['model'] is not None and not cfg_.get('coarse'):
                         counts['S5'] += 1
                         state['m'] = now
                         o2 = clone(obj)
@@ -275,6 +281,10 @@ def schedule_rules(R, lib):
                             if r != value or ls != value:
                                 note('S2', c2, 'schedule %s: the valid response %d is not applied in the call that reads it: getNow() is %r, getLastSyncTime() %r' % (here, value, r, ls))
                             want_backup = (backup is not None and backup is not ref and prev_reading != value)
+                            if cfg_.get('coarse'):
+                                # what the clock read before is not known here: a write of the value to a distinct backup clock may or may not happen
+                                sets = [e for e in sets if not (e[1] == 'backup' and backup is not None and backup is not ref and e[2] == value)]
+                                want_backup = False
                             bsets = [e for e in sets if e[1] == 'backup']
                             if want_backup and [e[2] for e in bsets] != [value]:
                                 note('S2', c2, 'schedule %s: the clock changes from %r to %d and the distinct backup clock receives %s' % (here, prev_reading, value, [e[2] for e in bsets] or 'nothing'))
